@@ -200,6 +200,29 @@ def skeleton(p):
     return t
 
 
+def _contains(p, names):
+    if isinstance(p, tuple):
+        if p and p[0] in names:
+            return True
+        return any(_contains(x, names) for x in p[1:] if isinstance(x, tuple))
+    return False
+
+
+def site_class(p):
+    """Known call-site classes: a violation whose pattern falls in one of them gets the class as its signature."""
+    def rec(n):
+        if isinstance(n, tuple) and n:
+            if n[0] in ("opt", "optf") and _contains(n[1], ("values", "valuesfirst")):
+                return "optional-whose-left-operand-contains-VALUES"
+            for x in n[1:]:
+                if isinstance(x, tuple):
+                    r = rec(x)
+                    if r:
+                        return r
+        return None
+    return rec(p)
+
+
 def expr_kind(e):
     t = e[0]
     if t in ("exists", "notexists"):
@@ -261,7 +284,7 @@ def check_query(pat, forms, data, union_switch=False, horizon=20.0):
                 continue
             if form == "ask":
                 if got != bool(want_rows):
-                    viols.append({"sig": "ask-differs|%s" % skeleton(pat), "detail": {"query": q, "got": got, "expected": bool(want_rows)},
+                    viols.append({"sig": "ask-differs|%s" % (site_class(pat) or skeleton(pat)), "detail": {"query": q, "got": got, "expected": bool(want_rows)},
                                   "case": {"pattern": pat, "form": form, "data": item, "union": union_switch}})
                 continue
             if form == "select*":
@@ -279,7 +302,7 @@ def check_query(pat, forms, data, union_switch=False, horizon=20.0):
                 kind = "rows-missing" if missing and not extra else "rows-extra" if extra and not missing else "rows-differ"
                 if set(got) == set(exp):
                     kind = "multiplicity-differs"
-                viols.append({"sig": "%s|%s" % (kind, skeleton(pat)),
+                viols.append({"sig": "%s|%s" % (kind, site_class(pat) or skeleton(pat)),
                               "detail": {"query": q, "got": sorted(map(repr, got.elements())), "expected": sorted(map(repr, exp.elements()))},
                               "case": {"pattern": pat, "form": form, "data": item, "union": union_switch}})
             elif sorted(gotvars) != sorted(expvars) and form != "select*":
